@@ -115,6 +115,23 @@ func genC04(e *emitter, tier string) {
 	e.emit(opCase("gemm", "Gemm", nil, []*TJ{smallT("f32", []int{2, 3}, 1), smallT("f32", []int{3, 2}, 2), nil}, nil))
 	for _, dt := range []string{"f64", "i32", "i64"} {
 		e.emit(opCase("gemm-dtypes", "Gemm", nil, []*TJ{smallT(dt, []int{2, 3}, 1), smallT(dt, []int{3, 2}, 2), smallT(dt, []int{2}, 3)}, nil))
+		e.emit(opCase("gemm-dtypes", "Gemm", []Attr{{Name: "alpha", Type: "f", F: 2}, {Name: "beta", Type: "f", F: -1}, {Name: "transB", Type: "i", I: 1}},
+			[]*TJ{smallT(dt, []int{2, 3}, 1), smallT(dt, []int{2, 3}, 2), smallT(dt, []int{2, 2}, 3)}, nil))
+		e.emit(opCase("matmul-dtypes", "MatMul", nil, []*TJ{smallT(dt, []int{3}, 1), smallT(dt, []int{2, 3, 2}, 2)}, nil))
+	}
+	// the same tensor object at two input positions (a node listing one name twice: Gram matrices, X·X)
+	for _, s := range [][]int{{2, 2}, {3, 3}, {2, 3}, {1, 2}} {
+		x := smallT("f32", s, 5)
+		for _, tA := range []int64{0, 1} {
+			for _, tB := range []int64{0, 1} {
+				c := &Case{Kind: "op", Stream: "gemm-shared", Op: "Gemm", Attrs: []Attr{{Name: "transA", Type: "i", I: tA}, {Name: "transB", Type: "i", I: tB}}, Inputs: []*TJ{x, x}, Share: [][2]int{{1, 0}}}
+				c.Impl = runOpShared("Gemm", c.Attrs, c.Inputs, nil, c.Share)
+				e.emit(c)
+			}
+		}
+		c := &Case{Kind: "op", Stream: "matmul-shared", Op: "MatMul", Inputs: []*TJ{x, x}, Share: [][2]int{{1, 0}}}
+		c.Impl = runOpShared("MatMul", nil, c.Inputs, nil, c.Share)
+		e.emit(c)
 	}
 	// --- LinearRegressor: targets x features x batch; missing attributes
 	for _, t := range []int{1, 2, 3} {
